@@ -233,3 +233,24 @@ func init() {
 		}
 	}
 }
+
+func init() {
+	dumpers["summary"] = func(p *Prog, m *Model) {
+		sm := newSummarizer(p)
+		for _, fn := range allModFuncs(p) {
+			if fnDisplay(fn) == os.Getenv("FN") || shortName(fn) == os.Getenv("FN") {
+				fmt.Println(fnDisplay(fn), sm.sums[fn].String())
+				rc := &rootCtx{}
+				for _, b := range fn.Blocks {
+					for _, in := range b.Instrs {
+						if ci, ok := in.(ssa.CallInstruction); ok {
+							if bi, ok := ci.Common().Value.(*ssa.Builtin); ok && bi.Name() == "delete" {
+								fmt.Println("  delete at", p.ipos(in), "roots:", rc.roots(ci.Common().Args[0]), descValue(ci.Common().Args[0], 0))
+							}
+						}
+					}
+				}
+			}
+		}
+	}
+}
